@@ -475,17 +475,27 @@ def decodeStateRaw (state : Str) : Option (Str × Str) :=
   | (n, some rd) => some (n, rd)
   | (_, none) => none
 
+/-- `redeemCode`: force CreatedAt / ExpiresOn when the provider did not set them -/
+def stampSession (cfg : Cfg) (env : Env) (s0 : Session) : Session :=
+  { s0 with createdAt := s0.createdAt.or (some env.now),
+            expiresOn := s0.expiresOn.or (some ((s0.createdAt.getD env.now) + cfg.cookieExpire)) }
+
+/-- `csrf.SetSessionNonce` -/
+def Session.withNonce (s : Session) (n : Str) : Session := { s with nonce := n }
+
+/-- the session the callback validates and saves -/
+def callbackSession (cfg : Cfg) (env : Env) (csrf : CSRF) (s0 : Session) : Session :=
+  (stampSession cfg env s0).withNonce csrf.nonce
+
 /-- callback, after the CSRF cookie `csrf` (named `name`) was loaded and the code redeemed into `s0` -/
 def callbackFinish (cfg : Cfg) (env : Env) (name nonce appRedirect code : Str) (csrf : CSRF) (s0 : Session) : Resp :=
-  let s1 : Session := { s0 with createdAt := s0.createdAt.or (some env.now),
-                                expiresOn := s0.expiresOn.or (some ((s0.createdAt.getD env.now) + cfg.cookieExpire)) }
   let rw := some (code, csrf.verifier)
-  if !env.enrichOK s1 then { (errorPage 500) with redeemedWith := rw }
+  if !env.enrichOK (stampSession cfg env s0) then { (errorPage 500) with redeemedWith := rw }
   else
     let ck := [CookieOp.clearCSRF name]
     if hashNonceM env csrf.state != nonce then { (errorPage 403 ck) with redeemedWith := rw }
     else
-      let s2 := { s1 with nonce := csrf.nonce }
+      let s2 := callbackSession cfg env csrf s0
       if !env.validate cfg s2 then { (errorPage 403 ck) with redeemedWith := rw }
       else if !(env.emailOK s2.email && groupsOK cfg.allowedGroups s2.groups) then { (errorPage 403 ck) with redeemedWith := rw }
       else if !env.saveOK then { (errorPage 500 ck) with redeemedWith := rw }
